@@ -36,6 +36,10 @@ CLAIMED = {
   "text": "Bounded symbolic model checking of the conversion layer between wire messages and the node's block/header/transaction/group objects (pbTo*/ *ToPb, Marshal*/UnMarshal*, GenHash): no panic for any presence pattern of optional fields; a header with symbolic integers, instants in three zones, prove values with leading zero bytes, optional byte fields and request-id maps keeps its content and its identifying hash through serialise/parse.",
   "note": "Trusted: gosym, z3, and the library codecs (protobuf, encoding/json) modelled by contract: identity on message structs / injective serialisation; SHA-256 as an injective uninterpreted function. The protobuf wire decoder on raw bytes is outside.",
  },
+ "C03": {
+  "text": "Bounded symbolic model checking of the real AccountDB.Commit + trie NodeDatabase.Commit/commit/uncache over a recording store: for two consecutive blocks of account/storage mutations (symbolic storage bytes, commits small or split over several physical batches) and every prefix of the physical batch writes of the second commit, the older root and every root whose top node is on disk are fully readable from a cold start with the committed values, and a commit that reported success has written its root.",
+  "note": "Trusted: gosym and its models, z3, Keccak as a collision-free uninterpreted function, atomicity of a physical batch. Two blocks, three accounts; the orchestration in blockchain_add.go and LevelDB itself are outside.",
+ },
  "C04": {
   "text": "Bounded symbolic model checking of the real AccountDB journal: for every mutator (15 kinds x 3 accounts x slots/amounts, symbolic value byte), one and two levels of Snapshot/Revert, from a committed state reopened cold and optionally dirtied, all observers answer as at the snapshot and the state root equals that of a twin on which the reverted operations never ran.",
   "note": "Trusted: gosym and its models, z3. Four instances of one genuine defect are listed as known findings (Empty() not restored after reverting a storage write on an account without cached storage). Histories of at most three mutators.",
